@@ -86,6 +86,15 @@ def gen_forms():
     wb = re.sub(r"\s+", "", function_body(osc, r"XalanOutputStream::write\s*\(\s*const\s+XalanDOMChar\s*\*\s*theBuffer\s*,[^)]*\)\s*\{", "XalanOutputStream::write(wide)"))
     need(re.escape("if(theBufferLength+m_buffer.size()>m_bufferSize){flushBuffer();}if(theBufferLength>m_bufferSize){"), wb,
          "XalanOutputStream::write(wide): flush when the data does not fit, direct write when larger than the buffer")
+    # write(XalanDOMChar): flush exactly when the buffer is full, then append (FormsDefs.ostep, OChar).  A repair
+    # that keeps a trailing high surrogate in the buffer (finding K05e) must come with an updated model.
+    wc = re.sub(r"\s+", "", function_body(osh, r"write\s*\(\s*XalanDOMChar\s+theChar\s*\)\s*\{", "XalanOutputStream::write(XalanDOMChar)"))
+    wc = wc.replace("assert(m_bufferSize>0);", "")
+    if wc != "{if(m_buffer.size()==m_bufferSize){flushBuffer();}m_buffer.push_back(theChar);}":
+        raise AnchorError("XalanOutputStream::write(XalanDOMChar) is no longer 'flush when full, then push_back' (model: FormsDefs.ostep OChar)")
+    fl = re.sub(r"\s+", "", function_body(osh, r"\n\s*flush\s*\(\s*\)\s*\{", "XalanOutputStream::flush()"))
+    if fl != "{flushBuffer();doFlush();}":
+        raise AnchorError("XalanOutputStream::flush() is no longer flushBuffer(); doFlush(); (model: FormsDefs.ostep OFlush)")
     text = ("(* generated by translator/gen_forms.py from XalanSourceTreeContentHandler.{hpp,cpp}, XalanSourceTreeDocument.cpp,\n"
             "   XercesDocumentWrapper.cpp, XalanOutputStream.hpp - do not edit *)\n"
             "From Coq Require Import NArith.\n")
